@@ -5,6 +5,7 @@ for the acting node (`ok` alone for ops without an acting node).
 -/
 import Nebula.Driver.Common
 import Nebula.Model.HsNet
+import Nebula.Model.HsNetVia
 import Nebula.Spec.HsRetry
 import Nebula.Spec.HsManager
 
@@ -19,7 +20,7 @@ def pktName (w : Net) : Option Handle → String
   | none => "-"
   | some h => match w.pidOf h with | some p => toString p | none => "u"
 
-def dumpNode (w : Net) (nd : Node) : String :=
+def dumpNode (w : Net) (nd : Node) (relays : List (Nat × List Nat) := []) : String :=
   let pend := sortStrs (nd.p.vpnIps.map (fun (a, hh) =>
     s!"{a}:{hh.localIndex}:{hh.counter}:{if hh.ready then 1 else 0}:{hh.store.length}"))
   let pidx := sortStrs (nd.p.pindexes.map (fun (i, pid) =>
@@ -27,7 +28,7 @@ def dumpNode (w : Net) (nd : Node) : String :=
   let hosts := sortStrs (nd.main.hosts.map (fun (a, l) => s!"{a}=" ++ join "/" (l.map (fun h => toString h.localIndex))))
   let idx := (sortByKey nd.main.indexes).map (fun (k, h) =>
     s!"{k}:{h.localIndex}:{h.remoteIndex}:{h.hsTime}:" ++ join "+" (h.vpnAddrs.map toString) ++
-    s!":{(if h.initiator then 10 else 0) + h.certVer}:{match h.remote with | some u => toString u | none => "-"}:{pktName w h.pkt0}:{pktName w h.pkt2}:{(if nd.pdl.contains h.id then 10 else 0) + h.myVer}")
+    s!":{(if h.initiator then 10 else 0) + h.certVer}:{match h.remote with | some u => toString u | none => "-"}:{pktName w h.pkt0}:{pktName w h.pkt2}:{(if nd.pdl.contains h.id then 10 else 0) + h.myVer}:{match (alookup h.id relays).getD [] with | [] => "-" | rs => join "+" (rs.map toString)}")
   let ridx := (sortByKey nd.main.remoteIndexes).map (fun (k, h) => s!"{k}>{h.localIndex}")
   s!"P[{join "," pend}] PI[{join "," pidx}] H[{join "," hosts}] I[{join "," idx}] R[{join "," ridx}]"
 
@@ -37,6 +38,18 @@ def txString (w : Net) (txs : List Tx) : String :=
     | .hs h dsts => (s!"h{(w.pidOf h).getD 0}", dsts.map toString)
     | .msg len d => (s!"m{len}", [toString d])
     | .close d => ("c", [toString d]))
+  let items := (HsManager.groupTx items).map (fun (n, d) => n ++ ">" ++ join "+" (sortStrs d))
+  s!"T[{join "," items}]"
+
+/-- canonical transmissions, relay transmissions included -/
+def txStringX (w : Net) (txs : List TxX) : String :=
+  let items := txs.map (fun t => match t with
+    | .base (.hs h dsts) => (s!"h{(w.pidOf h).getD 0}", dsts.map toString)
+    | .base (.msg len d) => (s!"m{len}", [toString d])
+    | .base (.close d) => ("c", [toString d])
+    | .hsVia h r ru => (s!"h{(w.pidOf h).getD 0}v{r}", [toString ru])
+    | .msgVia len r ru => (s!"m{len}v{r}", [toString ru])
+    | .closeVia r ru => (s!"cv{r}", [toString ru]))
   let items := (HsManager.groupTx items).map (fun (n, d) => n ++ ">" ++ join "+" (sortStrs d))
   s!"T[{join "," items}]"
 
@@ -75,8 +88,37 @@ def parseOp (a : List String) : Option Op :=
   | ["block", n, m] => do pure (.block (← n.toNat?) (← m.toNat?))
   | _ => none
 
+def parseOpX (a : List String) : Option OpX :=
+  match a with
+  | ["relay", n, r, p] => do pure (.relay (← n.toNat?) (← r.toNat?) (← p.toNat?))
+  | ["rdto", k, m, r, p] => do pure (.rdto (← k.toNat?) (← m.toNat?) (← r.toNat?) (← p.toNat?))
+  | ["rdl", j, m, r, p] => do pure (.rdl (← j.toNat?) (← m.toNat?) (← r.toNat?) (← p.toNat?))
+  | _ => (parseOp a).map .base
+
+/-- al<n>=u:b,…  /  ar<n>=a/u:b,… -/
+def parseAllow (toks : List String) (n : Nat) : AllowCfg :=
+  let ents := fun (pre : String) => (toks.filter (·.startsWith pre)).flatMap (fun t =>
+    match (t.drop 2).toString.splitOn "=" with
+    | [m, body] => if m.toNat? == some n then body.splitOn "," else []
+    | _ => [])
+  { base := (ents "al").filterMap (fun e => match e.splitOn ":" with
+      | [u, b] => u.toNat?.map (fun u => (u, b == "1"))
+      | _ => none),
+    inside := (ents "ar").filterMap (fun e => match e.splitOn ":" with
+      | [au, b] => match au.splitOn "/" with
+        | [a, u] => do pure (← a.toNat?, ← u.toNat?, b == "1")
+        | _ => none
+      | _ => none) }
+
+/-- a tunnel line of section I with the remote and the relays fields blanked -/
+def blankVia (e : String) : String :=
+  ":".intercalate ((e.splitOn ":").zipIdx.map (fun (f, i) => if i == 6 || i == 10 then "_" else f))
+
+def fieldOf (e : String) (i : Nat) : String := ((e.splitOn ":")[i]?).getD ""
+
 structure St where
   w : Net := {}
+  ext : List Ext := []
   retry : List HsRetry.St := []          -- per node
   tainted : List (Nat × Nat) := []       -- (node, addr) that had more than one timer entry (class naming only)
   marked : List (Nat × Nat) := []        -- C31 spec: (node, tunnel identity) with a quiet check since the last inbound traffic
@@ -103,7 +145,7 @@ def inner (s : String) : List String :=
 def step (s : St) (args : List String) (impl : String) : St × Out :=
   match args with
   | "reset" :: r :: iv :: toks =>
-    let specs := toks.filter (fun t => !t.startsWith "rt")
+    let specs := toks.filter (fun t => !t.startsWith "rt" && !t.startsWith "al" && !t.startsWith "ar")
     -- rt<node>=<gateway>:<weight>,…
     let routes : List (Nat × List (Nat × Int)) := (toks.filter (·.startsWith "rt")).filterMap (fun t =>
       match (t.drop 2).toString.splitOn "=" with
@@ -121,22 +163,29 @@ def step (s : St) (args : List String) (impl : String) : St × Out :=
       if cfgs.any Option.isNone then (s, badOp) else
       let cfgs := (cfgs.filterMap id).map (fun c => { c with routes := (alookup c.node routes).getD [] })
       ({ w := { nodes := cfgs.map Node.init },
+         ext := cfgs.map (fun c => { al := parseAllow toks c.node }),
          retry := cfgs.map (fun c => { retries := c.retries, interval := c.interval }) },
        { model := "ok", verdict := expect "reset" impl "ok", tag := "triv:reset" })
     | _, _ => (s, badOp)
   | _ =>
-    match parseOp args with
+    match parseOpX args with
     | none => (s, badOp)
-    | some op =>
+    | some opx =>
       let pre := s.w
-      let (w', actor, res, o) := pre.step op
+      let nx : NetX := { w := s.w, ext := s.ext }
+      let ropx := nx.resolve opx
+      -- the base op the other properties' oracles look at (relay ops are none of their business)
+      let op : Op := match opx with | .base o => o | _ => .sleep 0
+      let (nx', actor, res, ox) := nx.step opx
+      let w' := nx'.w
       match actor with
       | none =>
-        (({ s with w := w' } : St), { model := res, verdict := expect "no-actor" impl res, tag := s!"triv:{args.headD ""}:{res}" })
+        (({ s with w := w', ext := nx'.ext } : St), { model := res, verdict := expect "no-actor" impl res, tag := s!"triv:{args.headD ""}:{res}" })
       | some n =>
         match w'.node? n, pre.node? n with
         | some nd', some nd =>
-          let model := s!"{res} {txString w' o.tx} {dumpNode w' nd'}"
+          let relaysOf := fun (e : List Ext) => ((e[n]?).map (·.relays)).getD []
+          let model := s!"{res} {txStringX w' ox.tx} {dumpNode w' nd' (relaysOf nx'.ext)}"
           -- retry specification
           let r0 := s.retry.getD n default
           let r1 := match op with
@@ -152,22 +201,80 @@ def step (s : St) (args : List String) (impl : String) : St × Out :=
               | some hi => if i then s.marked.filter (· != (n, hi.id)) else (n, hi.id) :: s.marked.filter (· != (n, hi.id))
               | none => s.marked
             | _ => s.marked
-          let s' : St := { w := w', retry := s.retry.set n r2, removed := s.removed ++ gone, marked := marked',
+          let s' : St := { w := w', ext := nx'.ext, retry := s.retry.set n r2, removed := s.removed ++ gone, marked := marked',
                            tainted := ((s.tainted.filter (fun (m, a) => m != n ||
                                 (nd'.p.vpnIps.any (·.1 == a) && (nd'.p.wheel.slots.flatten.filter (·.1 == a)).length > 0))) ++
                               (nd'.p.vpnIps.map (·.1)).filterMap (fun a =>
                               if (nd'.p.wheel.slots.flatten.filter (·.1 == a)).length > 1 then some (n, a) else none)).eraseDups }
           -- property oracles on the implementation's answer
           let secs := sectionsOf impl
-          let preDump := sectionsOf (dumpNode pre nd)
+          let preDump := sectionsOf (dumpNode pre nd (relaysOf s.ext))
           let ctx : HsManager.Ctx := {
             myAddrs := nd.cfg.myAddrs,
             certLists := pre.nodes.flatMap (fun x => [certAddrsOf x.cfg 1, certAddrsOf x.cfg 2]),
             preH := sect "H[" preDump, preI := sect "I[" preDump, preR := sect "R[" preDump, preP := inner (sect "P[" preDump),
             implT := sect "T[" secs, implP := inner (sect "P[" secs), implH := sect "H[" secs,
             implI := sect "I[" secs, implR := sect "R[" secs }
-          let kind := HsManager.classify pre op
-          let v09 := HsManager.c09 ctx kind
+          -- what arrives, how: (packet, sender, receiver, relayed?) of a delivery
+          let arrival : Option (Handle × Nat × Nat × Bool) := match ropx with
+            | .base (.deliver k) => (pre.log[k]?).map (fun e => (e.1, e.2.1, e.2.2, false))
+            | .base (.dto k m) => (pre.log[k]?).map (fun e => (e.1, e.2.1, m, false))
+            | .rdto k m _ _ => if res == "norelay" then none else (pre.log[k]?).map (fun e => (e.1, e.2.1, m, true))
+            | _ => none
+          let relayedOp := match arrival with | some (_, _, _, true) => true | _ => false
+          let kind0 := match arrival with
+            | some (h, src, to, _) => HsManager.classifyDeliver pre h src to
+            | none => HsManager.classify pre op
+          -- remote allow list: why (if at all) the specification wants this direct delivery dropped
+          let al := nx.alOf n
+          let denied : Option String := match arrival with
+            | some (h, src, _, false) =>
+              match alookup h pre.pkts with
+              | some (creator, .s1 _ _ _ ver) =>
+                let cert := ((pre.node? creator).map (fun cn => certAddrsOf cn.cfg ver)).getD []
+                if !al.unknown src then some "unknown"
+                else if nd.blocked.contains (certIdOf creator ver) then none
+                else if cert.isEmpty || cert.any (fun a => nd.cfg.myAddrs.contains a) then none
+                else if !al.all cert src then some "cert" else none
+              | some (_, .s2 _ _ initIdx _ _ _) =>
+                if !al.unknown src then some "unknown" else
+                match (alookup initIdx nd.p.pindexes).bind nd.p.pendingById with
+                | some hh =>
+                  -- the initiator's list check is about the dialled address only (what the model proves:
+                  -- denied_underlay_installs_nothing_initiator); refusals for OTHER certificate addresses are outside C09
+                  if !al.all [hh.vpnAddr] src then some "dialled" else none
+                | none => none
+              | none => none
+            | _ => none
+          let kind := if relayedOp || denied.isSome then HsManager.Kind.other else kind0
+          let v09k := HsManager.c09 ctx kind0
+          let unchanged := ctx.implH == ctx.preH && ctx.implI == ctx.preI && ctx.implR == ctx.preR &&
+            sect "P[" secs == sect "P[" preDump && sect "PI[" secs == sect "PI[" preDump && ctx.implT == "T[]"
+          let v09a := match denied with
+            | some why => if unchanged then "ok" else s!"bad c09-installed-from-denied-underlay {why}"
+            | none => "ok"
+          -- relayed delivery: no underlay address recorded; same binding as the same message arriving directly
+          let v09r :=
+            if !relayedOp then "ok" else
+            let remoteKept := (inner ctx.implI).all (fun e =>
+              match (inner ctx.preI).find? (fun p => fieldOf p 0 == fieldOf e 0) with
+              | some p => fieldOf p 6 == fieldOf e 6
+              | none => fieldOf e 6 == "-")
+            if !remoteKept then "bad c09-relayed-recorded-underlay" else
+            match ropx with
+            | .rdto k m _ _ =>
+              let nxD : NetX := { nx with ext := nx.ext.modify m (fun e => { e with al := {} }) }
+              let (nxD', _, _, _) := nxD.stepCore (.base (.dto k m))
+              match nxD'.w.node? m with
+              | some ndD =>
+                let dD := sectionsOf (dumpNode nxD'.w ndD (((nxD'.ext[m]?).map (·.relays)).getD []))
+                let same := sect "H[" dD == ctx.implH && sect "R[" dD == ctx.implR &&
+                  sect "P[" dD == sect "P[" secs && sect "PI[" dD == sect "PI[" secs &&
+                  (inner (sect "I[" dD)).map blankVia == (inner ctx.implI).map blankVia
+                if same then "ok" else "bad c09-relayed-binding-differs"
+              | none => "ok"
+            | _ => "ok"
+          let v09 := [v09a, v09r, v09k].foldl (fun acc v => if acc == "ok" then v else acc) "ok"
           let v10 := HsManager.c10 ctx kind (fun h => (w'.pidOf h).getD 0)
           let tainted := (nd.p.vpnIps.map (·.1) ++ nd'.p.vpnIps.map (·.1)).filter (fun a =>
             ((nd.p.wheel.slots.flatten.filter (·.1 == a)).length > 1) || ((nd'.p.wheel.slots.flatten.filter (·.1 == a)).length > 1) ||
@@ -205,9 +312,14 @@ def step (s : St) (args : List String) (impl : String) : St × Out :=
           let v31 := let v := HsManager.c31 ctx kind (secs.headD "") swapAllowed peerPairs; if v == "ok" then v31c else v
           let verdict := if secs.length != 7 then (if impl == model then "ok" else "bad malformed-answer") else
             [v09, v10, v32, v31].foldl (fun acc v => if acc == "ok" then v else acc) "ok"
-          (s', { model := model, verdict := verdict, tag := HsManager.tagOf kind op (match op with
+          let tag0 := HsManager.tagOf kind0 op (match op with
               | .cmcheck _ li i o => (nd.trafficCheck li i o).2.1
-              | _ => res) })
+              | _ => res)
+          let tag := match opx, denied with
+            | .relay .., _ => s!"relay-setup:{res}"
+            | _, some why => s!"al:denied-{why}:{tag0}"
+            | _, none => if relayedOp then s!"relayed:{tag0}" else if res == "norelay" then "triv:norelay" else tag0
+          (s', { model := model, verdict := verdict, tag := tag })
         | _, _ => (s, badOp)
 
 def main : IO Unit := runEngine ({} : St) step
